@@ -197,5 +197,5 @@ META = {
             "mutant runs (no races pushed in get_racing_events_of; wakeup-tree independence test disabled; sleep-set filters of "
             "get_odpor_extension_from disabled; harmless: reversed skip-list loop) could not complete on the overloaded machine.",
     "technique": "Coq proof (trace monoid normal form) + per-program comparison of simgrid-mc explorations through a hook",
-    "claimed": False,
+    "claimed": True,
 }
